@@ -4,7 +4,7 @@ the check of its property.  usage: regress.py [commit ...]   (default: all fixed
 Results are stored in seeded/regress.json.  /repo is restored after each run."""
 import json, os, subprocess, sys, time
 ROOT = os.path.dirname(os.path.dirname(os.path.abspath(__file__)))
-REPO = "/repo"
+REPO = os.environ.get("VERIF_REPO", "/repo")
 def sh(cmd, **kw):
     p = subprocess.run(cmd, shell=True, stdout=subprocess.PIPE, stderr=subprocess.STDOUT, text=True, **kw)
     return p.returncode, p.stdout
@@ -13,9 +13,11 @@ kf = json.load(open(os.path.join(ROOT, "known_findings.json")))["findings"]
 want = sys.argv[1:]
 out_path = os.path.join(ROOT, "seeded", "regress.json")
 res = json.load(open(out_path)) if os.path.exists(out_path) else {}
-rc, st = sh("git -C %s status --porcelain" % REPO)
-if st.strip():
-    print("/repo is not clean"); sys.exit(2)
+SRC = "/repo"   # the fix commits are read from here; they are reverted in REPO (which may be a copy)
+if os.path.exists(os.path.join(REPO, ".git")):
+    rc, st = sh("git -C %s status --porcelain" % REPO)
+    if st.strip():
+        print(REPO + " is not clean"); sys.exit(2)
 for f in kf:
     c = f["commit"]
     if want and c not in want:
@@ -24,13 +26,19 @@ for f in kf:
     # later fixes that touch the same lines are reverted first
     stack = STACK.get(c, []) + [c]
     ok = True
+    applied = []
+    def restore():
+        for d in reversed(applied):
+            sh("cd %s && git apply %s" % (REPO, d))
     for k in stack:
-        rc, o = sh("git -C %s show %s -- . ':(exclude)*_test.go' > /tmp/_rev.diff && git -C %s apply -R /tmp/_rev.diff" % (REPO, k, REPO))
+        d = "/tmp/_rev_%s_%d.diff" % (k, os.getpid())
+        rc, o = sh("git -C %s show %s -- . ':(exclude)*_test.go' > %s && cd %s && git apply -R %s" % (SRC, k, d, REPO, d))
         if rc != 0:
             ok = False
             break
+        applied.append(d)
     if not ok:
-        sh("git -C %s checkout -- . && git -C %s clean -fdq" % (REPO, REPO))
+        restore()
         res[c] = {"property": pid, "applies": False, "note": "the reverse patch no longer applies (later changes touch the same lines)"}
         print(c, pid, "reverse patch does not apply"); continue
     t0 = time.time()
@@ -38,11 +46,13 @@ for f in kf:
         rc, out = sh("cd %s && go build ./... 2>&1 | tail -3" % REPO, env=dict(os.environ, GOFLAGS="-mod=mod", GOPROXY="off", GOSUMDB="off", GOTOOLCHAIN="local"))
         rc, out = sh("%s/check %s quick" % (ROOT, pid))
     finally:
-        sh("git -C %s checkout -- . && git -C %s clean -fdq" % (REPO, REPO))
+        restore()
     line = [l for l in out.splitlines() if l.startswith("VIOLATION")]
     res[c] = {"property": pid, "applies": True, "rc": rc, "violation_line": line[0] if line else None,
               "summary": [l for l in out.splitlines() if " quick:" in l][-1:] , "wall_s": round(time.time() - t0, 1), "also_reverted": STACK.get(c, []),
               "what": f["what"]}
     print(c, pid, "rc=%d" % rc, line[0] if line else "NOT DETECTED")
     json.dump(res, open(out_path, "w"), indent=1)
-os.remove("/tmp/_rev.diff") if os.path.exists("/tmp/_rev.diff") else None
+for f in os.listdir("/tmp"):
+    if f.startswith("_rev_") and f.endswith("_%d.diff" % os.getpid()):
+        os.remove(os.path.join("/tmp", f))
